@@ -78,3 +78,16 @@ CHECKS['C12'] = dict(
           'empty/duplicated lists — applied in three pre-states (empty, chain installed and referenced, held operations) through the real doModify, Get (under the controlled runtime so a goroutine panic is a verdict) and Flush: '
           'no panic, the call returns, a rejected request leaves RIB / held set / counters identical, and the invalid classes the property lists are rejected.'),
     note='Byte-level fuzzing of the wire format is a different family and not attempted; for a DELETE naming a syntactically invalid key that aliases nothing either verdict is accepted.')
+ENGINES.append({'name': 'schedule-dfs', 'path': 'rt/ (controlled scheduler + shims), cmd/vinstr (overlay instrumenter), mc/dfs.go', 'serves_properties': ['C05', 'C11'],
+     'kind_free_text': 'stateless depth-first exploration of thread schedules and environment choices of the real, source-instrumented code under a cooperative scheduler, with iterative preemption / deviation bounding; exact deadlock detection; Go race detector made scheduler-blind for data races'})
+CHECKS['C05']['technique'] = 'explicit-state BFS over announcement histories + exhaustive id-lattice sequences on the real runElection; stateless schedule DFS (preemption bound 2/3) of concurrent runElection with porcupine linearizability check'
+CHECKS['C05']['text'] += (' Schedule tier: 2-3 threads announce colliding ids on the real runElection while a reader polls the election, every schedule with at most 2 (thorough 3) preemptions; '
+                          'each complete call/return history must be linearizable w.r.t. the sequential election model (porcupine) and the final state must be (maximum, an announcer of it).')
+CHECKS['C11'] = dict(
+    category='model_checking', engine='schedule-dfs', design_ref='DESIGN.md §3 C11, §2.2',
+    technique='stateless schedule DFS with deviation bounding over 8 three/four-thread RPC scenarios on the -race build; HB-faithful shims make the Go race detector a per-schedule oracle',
+    text=('Eight scenarios of 3-4 threads with colliding keys (announce/announce/read; Modify chain vs Get vs Flush; negotiate/negotiate/disconnect; Flush(id) vs announce; primary vs non-primary on one key; '
+          'RIB add/delete with resolved-entry hook goroutine; AddNetworkInstance vs Get vs Flush; RIBContents vs cross-instance Flush vs AddNetworkInstance) run on the real server handlers under the controlled scheduler, '
+          'every schedule within 2 (thorough 3) deviations from the default scheduler. Oracles per execution: Go race detector reports (hand-offs hidden with RaceDisable, program happens-before declared on tokens), exact deadlock '
+          '(no enabled thread), panic, every call returns, election linearizable, quiescent RIB = acknowledged operations.'),
+    note='Participants and bound are fixed (3-4 threads, <=3 deviations); sessions are driven at the handler API (the per-stream goroutine plumbing is C06/C10); weak-memory effects without a detectable race are out of scope. The race oracle is self-tested by cmd/rtlitmus.')
